@@ -4,7 +4,7 @@
   the Go source (genDom) — and prints
     CFG globals=<Type.field,...> addp=<0|1> multp=<0|1>
     X <id> model=<0|1> free=<0|1> dep=<0|1>
-       model: the case is inside the modelled ISA (no bonds, no delay table, known opcodes)
+       model: the case is inside the modelled ISA (no bonds, no delay table, no simbox rules, known opcodes)
        free:  no core uses an opcode whose phase lives in Globals  (⇒ step_sched_indep / sim_isolation apply)
        dep:   the model itself yields different traces for ascending / descending schedules or for
               Globals left dirty by another simulation (a witness of globals_break_it on this case)
@@ -62,7 +62,7 @@ def handle (_ : Unit) (line : String) : Unit × List String :=
     let progsS := ((kv rest "progs").getD "").splitOn "/"
     match progsS.mapM parseProg with
     | some progs =>
-      if ring != "0" || (kv rest "delays").getD "0" != "0" then ((), [s!"X {id} model=0 free=0 dep=0"]) else
+      if ring != "0" || (kv rest "delays").getD "0" != "0" || (kv rest "rules").isSome || (kv rest "sps").isSome then ((), [s!"X {id} model=0 free=0 dep=0"]) else
       let mod := 2 ^ rsize
       let n := progs.length
       let asc := List.range n
